@@ -18,7 +18,9 @@ import (
 	"fmt"
 	"reflect"
 	"strings"
+	"sync"
 	"testing"
+	"time"
 
 	"github.com/NethermindEth/juno/db"
 	"github.com/NethermindEth/juno/db/memory"
@@ -580,3 +582,149 @@ func TestPruneProbe(t *testing.T) {
 
 var _ = memory.New
 var _ = context.Background
+
+// TestPruneConcurrent: readers (and a block writer) run CONCURRENTLY with an in-flight prune of the
+// real service for its whole lifetime, judged by the specification's invariants: whatever
+// StateAtBlockNumber serves equals the unpruned twin (StateReadsCorrect), blocks that stay
+// retained are complete at every moment (RetainedIntact), reads of blocks being pruned answer
+// "not found"/"pruned" or the twin's data, never other data (BelowFloorClean), and afterwards the
+// database is the canonical one (Resumable).  Every goroutine runs under recover.
+func TestPruneConcurrent(t *testing.T) {
+	if !vh.Enabled() {
+		t.Skip()
+	}
+	var in input
+	if err := vh.Input(&in); err != nil {
+		t.Fatal(err)
+	}
+	out := vh.NewResult()
+	defer out.Write()
+	defer machinery(out)
+	startDeadline(out, in.DeadlineSec)
+	rounds := 0
+	for _, ns := range in.NewState {
+		for _, pb := range []int{1, 99} {
+			c := consts{MaxH: 44, InitH: 36, MaxL1: 44, Retained: 1, PruneBatch: pb, L2PerPrune: 1}
+			r := &runner{in: input{Consts: c, NewState: []bool{ns}, Backends: []string{"memory"}}, out: out, ns: ns, be: "memory", seed: in.seedFor(rounds)}
+			setCurrent(vh.J{"concurrent": pb, "newState": ns})
+			w := r.newWorld()
+			if w == nil {
+				continue
+			}
+			concurrentRound(r, w, out, pb)
+			w.close()
+			rounds++
+		}
+	}
+	out.Count("concurrent_rounds", rounds)
+	out.Done(rounds, rounds)
+}
+
+func concurrentRound(r *runner, w *world, out *vh.Result, pb int) {
+	const l1, keep = 34, 33 // Retained 1: everything below 33 goes
+	if err := w.setL1(l1); err != nil {
+		panic(err)
+	}
+	var (
+		mu    sync.Mutex
+		found = map[string]string{}
+		reads int
+	)
+	add := func(sym, detail string) {
+		mu.Lock()
+		if _, ok := found[sym]; !ok {
+			found[sym] = detail
+		}
+		mu.Unlock()
+	}
+	stop := make(chan struct{})
+	var wg sync.WaitGroup
+	guard := func(name string, fn func()) {
+		wg.Add(1)
+		go func() {
+			defer wg.Done()
+			defer func() {
+				if p := recover(); p != nil {
+					add("concurrent:panic:"+name, fmt.Sprint(p))
+				}
+			}()
+			fn()
+		}()
+	}
+	// slow the prune down a little so that every reader sees many intermediate states
+	w.fk.OnWrite = func(int, string) { time.Sleep(2 * time.Millisecond) }
+	for g := 0; g < 3; g++ {
+		g := g
+		guard(fmt.Sprintf("reader-%d", g), func() {
+			for i := g; ; i++ {
+				select {
+				case <-stop:
+					return
+				default:
+				}
+				n := uint64(i % 37)
+				if st, closer, err := w.node.BC.StateAtBlockNumber(n); err == nil {
+					if tst, tcl, terr := w.twin.BC.StateAtBlockNumber(n); terr == nil {
+						w.cmpState("concurrent:state-by-number", n, st, tst, add)
+						_ = tcl()
+					}
+					_ = closer()
+				} else if !errors.Is(err, db.ErrKeyNotFound) && !errors.Is(err, pruner.ErrBlockPruned) {
+					add("concurrent:state-by-number:error", fmt.Sprintf("state at %d: %v", n, err))
+				}
+				sub := func(sym, detail string) { add("concurrent:"+sym, detail) }
+				w.sweepBlock(w.node.BC, w.raw, n, n >= keep, sub)
+				mu.Lock()
+				reads++
+				mu.Unlock()
+			}
+		})
+	}
+	// a writer extends the chain while the prune runs (the twin first, so that readers always
+	// find their oracle)
+	var stored []int
+	guard("writer", func() {
+		for i := 0; i < 3; i++ {
+			_, b, err := w.nextBlock(false)
+			if err != nil {
+				add("concurrent:extend-fails", err.Error())
+				return
+			}
+			if err := w.twin.StoreBuilt(b); err != nil {
+				add("concurrent:twin", err.Error())
+				return
+			}
+			if err := w.node.StoreBuilt(b); err != nil {
+				add("concurrent:extend-fails", fmt.Sprintf("store of block %d during a prune: %v", b.Block.Number, err))
+				return
+			}
+			w.ver[int(b.Block.Number)]++
+			stored = append(stored, int(b.Block.Number))
+			time.Sleep(5 * time.Millisecond)
+		}
+	})
+	res := w.deliver("l1", l1, faultkv.Off, 0, false)
+	// readers keep going a little after the prune and the writer are done
+	time.Sleep(10 * time.Millisecond)
+	close(stop)
+	wg.Wait()
+	w.fk.OnWrite = nil
+	if res.kind != "ok" {
+		add("concurrent:prune-result", res.String())
+	}
+	for _, v := range w.evaluate(-1, true) {
+		add("concurrent:after:"+v.sym, v.detail)
+	}
+	if p := w.project(); p.Oldest != keep || len(p.Com) == 0 || p.Com[0] != keep {
+		add("concurrent:final-oldest", fmt.Sprintf("oldest retained %d after the prune, want %d", p.Oldest, keep))
+	}
+	out.Count("concurrent_reads", reads)
+	if reads < 30 {
+		panic(fmt.Sprintf("prune engine: the concurrent readers made only %d reads during the prune", reads))
+	}
+	for sym, detail := range found {
+		key := "prune-damage:" + sym
+		out.Diverge(vh.Divergence{Key: key, What: fmt.Sprintf("[%s] newState=%v, batches of %d: reader concurrent with an in-flight prune of blocks 0..32 (chain 0..36 growing to 39): %s", key, r.ns, pb, detail),
+			Input: vh.J{"concurrent": pb, "newState": r.ns}})
+	}
+}
